@@ -506,6 +506,8 @@ def gen_ctor(rng):
                 m = 'none'
         elif m == 'many':
             ids.insert(rng.randint(0, len(ids)), 'extra%d' % rng.randint(0, 9))
+        elif m.startswith('md_') and not ids:
+            m = 'none'
         elif m.startswith('md_'):
             n_ids = len(ids)
             base = [{'k': 'v%d' % i} for i in range(n_ids)]
@@ -620,13 +622,13 @@ def gen_uc(rng):
 
 def gen(rng, tier):
     k = 1 if tier == 'quick' else 10
-    for _ in range(500 * k):
+    for _ in range(800 * k):
         yield gen_forms(rng)
-    for _ in range(900 * k):
+    for _ in range(1600 * k):
         yield gen_ctor(rng)
-    for _ in range(350 * k):
+    for _ in range(600 * k):
         yield gen_adj(rng)
-    for _ in range(350 * k):
+    for _ in range(600 * k):
         yield gen_uc(rng)
 
 
